@@ -86,13 +86,13 @@ def fixed_cases(tier):
     return out
 
 
-def make_func(sig, xp_name="jnp"):
+def make_func(sig, xp_name="jnp", default_last=False):
     names, kinds = sig["names"], sig["kinds"]
     parts = []
     for i, (n, k) in enumerate(zip(names, kinds)):
         if k == "kw" and (i == 0 or kinds[i - 1] != "kw"):
             parts.append("*")
-        parts.append(n)
+        parts.append(n + "=7.5" if (default_last and i + 1 == len(names)) else n)
         if k == "po" and (i + 1 == len(names) or kinds[i + 1] != "po"):
             parts.append("/")
     lin = " + ".join(f"{COEF[NAMES.index(n)]!r} * {n}" for n in names)
@@ -276,6 +276,24 @@ def check_wrap(case):
         r = expect_value_error(h, *pos, **rest_d)
         if r:
             msgs.append(f"allow_args with one argument missing and another given both positionally and by keyword {r}")
+    # the same function with a DEFAULT VALUE for its last parameter: a call with the right number
+    # of arguments in which the last parameter's keyword is misspelt must be rejected (Python
+    # itself would not complain about the missing argument)
+    fd, _ = make_func(sig, default_last=True)
+    hd = call_lcm(allow_args, fd)
+    if len(names) >= 1:
+        npos_d = min(npos, len(names) - 1)
+        pos_d = [vals[n] for n in names[:npos_d]]
+        rest_d = {n: vals[n] for n in case["kw_order"] if n in names[npos_d:-1]}
+        if not same(call_lcm(hd, *pos_d, **rest_d, **{names[-1]: vals[names[-1]]})):
+            msgs.append("allow_args on a function with a default value: valid call changes the result")
+        try:
+            r_val = hd(*pos_d, **rest_d, zzz=vals[names[-1]])
+            msgs.append(f"allow_args on a function whose last parameter has a default: an unexpected keyword (right argument count) was accepted and returned {leaves(r_val)[0]!r}")
+        except (ValueError, TypeError):
+            pass
+        except Exception as e:  # noqa: BLE001
+            msgs.append(f"allow_args with an unexpected keyword raised {type(e).__name__}")
     # helpers
     if call_lcm(convert_kwargs_to_args, dict(kw), list(names)) != [vals[n] for n in names]:
         msgs.append("convert_kwargs_to_args does not order by parameter list")
